@@ -174,3 +174,13 @@ Definition string_to_fixed64 (guarded : bool) (s : bytes) : option Z :=
     if di =? -1 then s ++ repeat 48 8
     else firstn (Z.to_nat di) s ++ skipn (Z.to_nat (di + 1)) s ++ repeat 48 (Z.to_nat (8 - (len s - di - 1))) in
   parse_int buf.
+
+(* ---------------------------------------------------------------- (4) keystore key blob *)
+
+(* account/client.go SaveAccount: 96 bytes = public key X || Y (64 bytes of
+   the uncompressed encoding) followed by the private key right-aligned in the
+   last 32 bytes (crypto.GenerateKeyPair returns D.Bytes(), which is shorter
+   than 32 bytes for one key in 256).  LoadAccounts rebuilds the account from
+   keyPair[64:96] read as a big-endian scalar (crypto.NewPubKey, crypto.Sign). *)
+Definition key_blob (xy d : bytes) : bytes := firstn 64 xy ++ repeat 0 (32 - length d) ++ d.
+Definition blob_priv (blob : bytes) : bytes := firstn 32 (skipn 64 blob).
